@@ -220,6 +220,68 @@ def run_writer_history(kind, url, ops, tmp, desc):
     return tr
 
 
+def run_two_writers(kind, url, tmp, desc, n_each, close_order):
+    """TWO writers of one kind open at the same time on different files, written to alternately, then closed in the given
+    order -> two traces (one per writer) in the shape of run_writer_history"""
+    from flow.record import RecordWriter
+
+    for f in glob.glob(os.path.join(tmp, "out*")) + glob.glob(os.path.join(tmp, "two*")):
+        os.remove(f)
+    urls = [url.replace("out", "two%d_out" % i) for i in (1, 2)]
+    fulls = [u.replace("://", "://" + tmp + "/") if "://" in u else os.path.join(tmp, u) for u in urls]
+    ws = [RecordWriter(f) for f in fulls]
+    trs = [[{"kind": kind, "url": u}] for u in urls]
+    counts = [0, 0]
+    for k in range(n_each):
+        for i in (0, 1):
+            ev = {"op": "write", "raised": False, "exc": "none", "after": {"observed": False}}
+            try:
+                ws[i].write(desc(counts[i] + 1, "w%d" % (i + 1), _generated=gen.GEN))
+                counts[i] += 1
+            except Exception as e:
+                ev["raised"], ev["exc"] = True, type(e).__name__ + ":" + str(e)[:80]
+            trs[i].append(ev)
+    for i in close_order:
+        ev = {"op": "close", "raised": False, "exc": "none", "after": {"observed": False}}
+        try:
+            ws[i].close()
+        except Exception as e:
+            ev["raised"], ev["exc"] = True, type(e).__name__ + ":" + str(e)[:80]
+        trs[i].append(ev)
+    for i in (0, 1):                       # observed when BOTH are closed: neither may have taken anything of the other's
+        trs[i][-1]["after"] = observe_after(kind, urls[i], tmp, counts[i])
+    return trs
+
+
+FD1_CHILD = r'''
+import json, os, sys
+os.close(1)                                   # a daemon that has closed its standard output: the next file opened gets descriptor 1
+sys.path.insert(0, sys.argv[1]); sys.path.insert(0, sys.argv[2])
+from vf import common
+common.use_repo()
+import checks.c17 as c
+tmp, result = sys.argv[3], sys.argv[4]
+out = []
+for kind, url in (("stream", "out.records"), ("streamgz", "out.records.gz"), ("json", "out.json")):
+    for h in (["write", "write", "close"], ["write", "flush", "write", "exit"]):
+        out.append(c.run_writer_history(kind, url, h, tmp, c.D()))
+json.dump(out, open(result, "w"))
+'''
+
+
+def fd1_traces(tmp):
+    import subprocess
+
+    res = os.path.join(tmp, "fd1_result.json")
+    pr = subprocess.run(["/venv/bin/python", "-c", FD1_CHILD, common.VERIF, os.path.realpath(common.REPO), tmp, res], stdout=subprocess.DEVNULL, stderr=subprocess.PIPE, text=True, timeout=300,
+                        env=dict(os.environ, VERIF_REPO=os.path.realpath(common.REPO), PYTHONPATH=common.VERIF))
+    if pr.returncode != 0 or not os.path.exists(res):
+        raise MachineryError(f"fd-1 child failed: rc={pr.returncode} {pr.stderr[-300:]}")
+    out = json.load(open(res))
+    os.remove(res)
+    return out
+
+
 def histories(maxlen):
     """all call sequences over {write, flush, close, exit} with no write after the first closing call"""
     out = []
@@ -280,6 +342,20 @@ def writers_part(ctx, thorough):
             traces.append(run_writer_history(base, url, h, tmp, desc))
             metas.append((name, h))
             ctx.case(("writer", name, " ".join(h)))
+    # two writers of one kind open at the same time (one output per record type, per host, per hour ...)
+    for name, base, url in [(k, k, u) for k, u in KINDS.items() if k not in ("sqlite",)] + [("streamzst", "streamgz", "out.records.zst"), ("jsonl", "json", "out.jsonl")]:
+        for n_each, close_order in ((3, (0, 1)), (2, (1, 0)), (600, (0, 1))):
+            if n_each > 100 and not (thorough or name in ("json", "streamzst")):
+                continue
+            for tr in run_two_writers(base, url, tmp, desc, n_each, close_order):
+                traces.append(tr)
+                metas.append((name + "(two open)", ["write"] * n_each + ["close"]))
+                ctx.case(("two-writers", name, n_each, close_order))
+    # a process whose standard output is CLOSED: the writer's file gets descriptor 1
+    for tr in fd1_traces(tmp):
+        traces.append(tr)
+        metas.append((tr[0]["kind"] + "(fd 1)", [e["op"] for e in tr[1:]]))
+        ctx.case(("fd1", tr[0]["kind"], " ".join(e["op"] for e in tr[1:])))
     # spec -> code: behaviours generated by TLC from Writers.tla (up to 12 calls, refused writes included) replayed on the real writers
     amap = {"Write": "write", "FailedWrite": "badwrite", "Flush": "flush", "Close": "close", "Exit": "exit"}
     nsim = 0
